@@ -103,12 +103,6 @@ def solve_one(ob, timeout_ms=10000, use_cvc5=True, cross=False, finite=True, ski
         ob.time += time.time() - t1
         if ob.verdict == "refuted":
             return ob
-    if ob.verdict == "unknown" and timeout_ms > 2000:
-        t1 = time.time()
-        r = _z3_check(ob, timeout_ms)
-        ob.time += time.time() - t1
-        if ob.verdict == "unknown":
-            ob.detail = (ob.detail + " z3: " + getattr(ob, "last_reason", "")).strip()
     if (ob.verdict == "unknown" and use_cvc5) or cross:
         text = to_smt2(ob.assumptions, ob.goal)
         out, dt = run_cli([CVC5, "--strings-exp", "--tlimit=%d" % timeout_ms], text, timeout_ms / 1000)
@@ -128,6 +122,14 @@ def solve_one(ob, timeout_ms=10000, use_cvc5=True, cross=False, finite=True, ski
             ob.model = None
         else:
             ob.detail += " cvc5: " + out
+            if timeout_ms > 2000:
+                t1 = time.time()
+                r = _z3_check(ob, timeout_ms)
+                ob.time += time.time() - t1
+                if ob.verdict != "unknown":
+                    ob.solver = "z3-%s" % z3.get_version_string()
+                    return ob
+                ob.detail = (ob.detail + " z3: " + getattr(ob, "last_reason", "")).strip()
             # last resort: the other z3
             out2, dt2 = run_cli([Z3CLI, "-T:%d" % max(1, timeout_ms // 1000), "-memory:4000"], text, timeout_ms / 1000)
             ob.time += dt2
